@@ -55,7 +55,25 @@ def gen_case(ch: Chooser, tier: str = "quick") -> dict:
         stmts.append(["mem", m, mt])
         k = ch.rint(1, 6) if ch.chance(1, 2) else ch.rint(1, 2)
         form = ch.weighted([(4, "nested"), (3, "named"), (1, "proj"), (1, "sel")])
+        early = []
         prev = ["read", m]
+        order = ch.weighted([(3, "after"), (2, "before"), (1, "shared")])
+        if order == "shared":
+            # one variable holding the read, used by the write and by readers
+            uid += 1
+            vname = f"v{uid}"
+            stmts.append(["decl", "Signal", vname, ["read", m]])
+            prev = ["var", vname]
+        prev0 = prev
+        if order in ("before", "shared"):
+            for _ in range(ch.rint(1, 2)):
+                uid += 1
+                q = f"q{uid}"
+                kq = ch.i32_biased(-9, 9)
+                stmts.append(["decl", "Signal", q, ["bin", ch.pick(["+", "*", "-"]),
+                                                    prev if order == "shared" else ["read", m],
+                                                    ["lit", kq, 10]]])
+                early.append(q)
         if form == "named":
             for _j in range(k - 1):
                 uid += 1
@@ -71,7 +89,7 @@ def gen_case(ch: Chooser, tier: str = "quick") -> dict:
                 data = ["proj", data, mt]
             elif form == "sel":
                 lim = ch.pick([5, 10, 100, 1000])
-                data = ["sel", ["bin", "<", ["read", m], ["lit", lim, 10]], data]
+                data = ["sel", ["bin", "<", ["read", m] if order != "shared" else prev0, ["lit", lim, 10]], data]
         stmts.append(["write", m, data, None])
         r = f"r{ci + 1}"
         stmts.append(["decl", "Signal", r, ["read", m]])
@@ -83,7 +101,7 @@ def gen_case(ch: Chooser, tier: str = "quick") -> dict:
             opq = ch.pick(["+", "*", "-"])
             stmts.append(["decl", "Signal", q, ["bin", opq, ["read", m], ["lit", kq, 10]]])
             readers.append(q)
-        cells.append({"mem": m, "type": mt, "reader": r, "chain": k, "computed": readers})
+        cells.append({"mem": m, "type": mt, "reader": r, "chain": k, "computed": readers + early})
     try:
         lang.Interp(stmts).run({i["name"]: i["init"] for i in inputs}, {})
     except lang.RefError:
